@@ -8,6 +8,7 @@ import MysticVerif.Model.PowellS
 import MysticVerif.Model.ClosedLoop
 import MysticVerif.Model.Brent
 import MysticVerif.Model.Signal
+import MysticVerif.Model.Reconfig
 import MysticVerif.Drv.TermParse
 
 namespace MysticVerif.SolverDrv
@@ -151,6 +152,7 @@ def handleDE (args : List Val) : String := Id.run do
     outs := outs.push (showDE s)
   let last := match s.log.getLast? with | some p => "(" ++ pFs p.1 ++ " " ++ pF p.2 ++ ")" | none => "none"
   return s!"ok steps=({" ".intercalate outs.toList}) lastlog={last} hist={pFs (s.stepLog.map Prod.snd)}"
+
 
 /-! ### Nelder-Mead: `nm (cost ..) .. (x0 (..)) (radius f) (steps n)` -/
 
@@ -392,8 +394,50 @@ def handleSolve (args : List Val) : String := Id.run do
     let r := solve a fuel c0 (DE.init o pop (pop.headD [])) 0 0
     return showOut r.ctl r.msg r.iters r.steps r.st.best r.st.bestE r.st.log.length r.st.stepLog.length
 
+/-! ### DE, reconfigured: `dec (pop ((..) ..)) (gens ((gen (cfg <setup>) (redec b) (allclip b) (two b) (trials members|((..) ..))) ..))`
+    one `gen` per PERFORMED iteration, with the settings in force at that iteration (Model/Reconfig.lean) -/
+
+/-- `_decorate_objective` under strict ranges (differential_evolution.py l.237-242 / l.486-491): every member goes through
+    `_clipGuessWithinRangeBoundary(member, (not generations) or i == index of bestEnergy in popEnergy)`; with `at = True` it
+    is clipped at the bounds, with `at = False` out-of-range coordinates are re-drawn at random - the harness hands the model
+    only histories in which those members lie in the box (identity) -/
+def redecPop (b : Box) (allclip : Bool) (s : DE V Float) (pop : List V) : List V :=
+  if allclip then pop.map b.clip0
+  else
+    let idx := (s.popE.zipIdx.find? (fun p => p.1 == s.bestE)).map (·.2)
+    match idx with
+    | some i => pop.zipIdx.map (fun p => if p.2 = i then b.clip0 p.1 else p.1)
+    | none => pop
+
+def handleDEC (args : List Val) : String := Id.run do
+  let some pop := (kw? args "pop").bind Val.asList? |>.bind (·.mapM Val.asFloats?) | return "bad-op"
+  let some gens := (kw? args "gens").bind Val.asList? | return "bad-op"
+  let mut s : DE V Float := { pop := pop, popE := pop.map (fun _ => inf), best := pop.headD [], bestE := inf, log := [], stepLog := [] }
+  let mut outs : Array String := #[]
+  for g in gens do
+    let some gargs := g.asList? | return "bad-op"
+    let some cfg := (kw? gargs "cfg").bind Val.asList? | return "bad-op"
+    let some su := parseSetup cfg | return "bad-op"
+    let redec := ((kw? gargs "redec").bind Val.asBool?).getD false
+    let allclip := ((kw? gargs "allclip").bind Val.asBool?).getD false
+    let two := ((kw? gargs "two").bind Val.asBool?).getD false
+    let s0 := s
+    let pre : List V → List V := match su.box with
+      | some b => if redec then redecPop b allclip s0 else id
+      | none => id
+    let trialsOpt : Option (List V) := match kw? gargs "trials" with
+      | some (.sym "members") => some (pre s.pop)
+      | some v => v.asList?.bind (·.mapM Val.asFloats?)
+      | none => none
+    let some trials := trialsOpt | return "bad-op"
+    s := DE.genStep { o := su.obj, pre := pre, trials := trials, two := two } s
+    outs := outs.push (showDE s)
+  let last := match s.log.getLast? with | some p => "(" ++ pFs p.1 ++ " " ++ pF p.2 ++ ")" | none => "none"
+  return s!"ok steps=({" ".intercalate outs.toList}) lastlog={last} hist={pFs (s.stepLog.map Prod.snd)} logsum={logSum s.log}"
+
 def handle : Handler
   | .sym "de" :: args => handleDE args
+  | .sym "dec" :: args => handleDEC args
   | .sym "nm" :: args => handleNM args
   | .sym "ctl" :: args => handleCtl args
   | .sym "pw" :: args => handlePw args
